@@ -88,6 +88,17 @@ def check(prop: str, tier: str, only: str | None = None, repo: str | None = None
     ctx = Ctx(tier, repo)
     rep.explanation = getattr(mod, "EXPLANATION", "")
     rep.assumptions = list(getattr(mod, "ASSUMPTIONS", []))
+    # name anchors: the rules of this property (and the engine parts they use) refer to some
+    # identifiers of the repository by name; if one of them no longer exists (a rename), nothing
+    # may be concluded from name matching: analysis error, no verdict
+    from .anchors import missing_anchors
+
+    gone = missing_anchors(f"olsa.rules.{prop.lower()}", ctx.repo)
+    if gone:
+        for a, mods in sorted(gone.items()):
+            rep.analysis_errors.append(f"anchor `{a}` no longer exists in the repository (renamed or removed?); it is matched by name in {', '.join(m.split('.')[-1] for m in mods[:4])}: no rule was evaluated")
+        rep.extra["files_analysed"] = list(ctx.prog.files)
+        return rep.finish()
     for rule_id, fn in mod.RULES:
         if only and rule_id != only:
             continue
@@ -146,6 +157,12 @@ def probe(prop):
     ctx = Ctx("quick")
     known = {k["key"] for k in core.load_known()["known"]}
     new, errs = [], []
+    from .anchors import missing_anchors
+
+    gone = missing_anchors(f"olsa.rules.{prop.lower()}", ctx.repo)
+    if gone:
+        print(json.dumps({"new": [], "analysis_errors": [f"anchor {a} vanished (used by {','.join(m.split('.')[-1] for m in mods[:3])})" for a, mods in sorted(gone.items())]}))
+        return 0
     for rule_id, fn in mod.RULES:
         try:
             rr = fn(ctx)
